@@ -746,7 +746,9 @@ func c07(c *Ctx) {
 				pick func(key string) bool
 			}{
 				{c10, "C10.R4", func(k string) bool { return strings.HasSuffix(k, ":rekeyed") || k == "forward:rebuilt-map" }},
-				{c11, "C11.R2", func(k string) bool { return strings.HasSuffix(k, ":hit") }},
+				{c11, "C11.R2", func(k string) bool {
+					return strings.HasSuffix(k, ":hit") || k == "prepareMetricQueue:returns-the-registered-queue"
+				}},
 				{c11, "C11.R3", func(k string) bool { return strings.HasSuffix(k, ":rekeyed") }},
 			} {
 				sub := &Ctx{W: c.W, Prop: c.Prop, Tier: c.Tier, known: c.known, Sub: true}
